@@ -359,7 +359,7 @@ class Exec:
                     fv[f] = x
                 LAZY_HEAP[addr] = Obj(t.cls, fv)
                 return Ref(addr)
-            return obj_at
+            return memo_at(obj_at)      # the same position always denotes the same object
         raise Unsupported("fresh elements of type %r" % (t,))
 
     # ------------------------------------------------------------------ truthiness
@@ -1061,7 +1061,11 @@ class Exec:
             if isinstance(ref, Ref):
                 st.put(ref, self.havoc_like(st.get(ref), mname, st))
         rt = c.yields if c.yields is not None else c.returns
-        if c.ghost.get("result_is"):
+        rif = c.ghost.get("result_is_field")
+        if rif and isinstance(st.get(env.get(rif[0])), Obj) and rif[1] in st.get(env[rif[0]]).f:
+            # the result is a ghost field of the receiver when the caller's object model has one (else: fresh)
+            res = st.get(env[rif[0]]).f[rif[1]]
+        elif c.ghost.get("result_is"):
             # the result is the value of a spec expression over the arguments (e.g. a ghost field of the receiver)
             res = self.spec_value(c.ghost["result_is"], spec_env, st, old_st=pre_st)
         elif c.yields is not None:
@@ -1495,6 +1499,13 @@ class Exec:
             return v.n, v.at
         if isinstance(v, IterV):
             return v.n, v.at
+        if isinstance(v, self.lib.IterState) and not isinstance(v.pos, int):
+            raise Unsupported("iterator used again after a for-loop consumed it")
+        if isinstance(v, self.lib.IterState):
+            # the remaining items (iterating consumes them; the iterator is not used again by the modelled code)
+            p0 = v.pos
+            rest = (v.n - p0) if isinstance(v.n, int) else (v.n - p0 if p0 else v.n)
+            return rest, (lambda i, v=v, p0=p0: v.at((i + p0) if p0 else i))
         if isinstance(v, DictV):
             ks = tuple(v.d)
             return len(ks), (lambda i, ks=ks: _pick(ks, i))
@@ -1517,6 +1528,9 @@ class Exec:
     def for_loop(self, n, itv, st):
         k, spec = self.loop_spec(n)
         N, elem = self.iter_desc(itv, st)
+        if isinstance(itv, Ref) and isinstance(st.get(itv), self.lib.IterState):
+            # the loop consumes the iterator: any later use of it is outside the model
+            st.put(itv, self.lib.IterState(N, None, "consumed-by-a-for-loop"))
         if isinstance(N, int) and (spec is None or self.ctx.bounded is not None):
             if N <= 12:
                 return self.unroll(n, N, elem, st)
